@@ -424,6 +424,11 @@ func ClientRun(osenv *rsyncos.Env, opts *rsyncopts.Options, conn io.ReadWriter, 
 // rsync/exclude.c:send_filter_list
 func sendFilterList(c *rsyncwire.Conn, rules []string) error {
 	for _, rule := range rules {
+		if rule == "" {
+			// An empty rule (-f '') selects nothing, and its length would
+			// be taken for the end of the list by the other side.
+			continue
+		}
 		if err := c.WriteInt32(int32(len(rule))); err != nil {
 			return err
 		}
